@@ -16,6 +16,7 @@ import (
 	"context"
 
 	"github.com/lmorg/murex/builtins/pipes/streams"
+	_ "github.com/lmorg/murex/builtins/types/string"
 	"github.com/lmorg/murex/lang"
 	"github.com/lmorg/murex/lang/ref"
 	"github.com/lmorg/murex/lang/stdio"
@@ -266,4 +267,90 @@ func VerifC38Edit() {
 	}
 	rt.Assert(err == nil, "the builtin failed")
 	verifC38same(verifC38out, want, "an element was added, dropped or not changed as documented")
+}
+
+// ---- long elements through the real str reader and writer ----
+
+// VerifC38Long: a `str` list of `items` lines of `width` bytes (more than the line scanner's 4 KiB
+// start buffer in total; every other line carries the marker KEEP, the first byte of each line is
+// symbolic) through match / !match / left / right with the real str array reader and writer
+// (slices of the scan buffer in, buffered or unbuffered lines out): match and !match output
+// exactly the marked / unmarked lines, left / right exactly the first / last 5 bytes of each.
+func VerifC38Long() {
+	n, w := rt.Param("items"), rt.Param("width")
+	lines := make([]string, n)
+	text := ""
+	for i := range lines {
+		b := make([]byte, w)
+		for j := range b {
+			b[j] = byte('a' + (i+j)%26)
+		}
+		c := rt.Byte("first")
+		rt.Assume(rt.And(c >= 'A', c <= 'J'))
+		b[0] = c
+		if i%2 == 0 {
+			for j, c := range []byte("KEEP") {
+				b[8+j] = c
+			}
+		}
+		lines[i] = string(b)
+		text += lines[i] + "\n"
+	}
+	mk := func(not bool, params ...string) *lang.Process {
+		p := new(lang.Process)
+		in := streams.NewStdin()
+		in.SetDataType(types.String)
+		_, err := in.Write([]byte(text))
+		rt.Assert(err == nil, "cannot fill stdin")
+		p.Stdin = in
+		p.Stdout = streams.NewStdin()
+		p.Stderr = streams.NewStdin()
+		p.IsMethod = true
+		p.IsNot = not
+		p.Context, p.Done = context.WithCancel(context.Background())
+		p.FileRef = &ref.File{Source: &ref.Source{Module: "murex/verif"}}
+		p.Parameters.DefineParsed(params)
+		return p
+	}
+	var p *lang.Process
+	var err error
+	want := ""
+	switch rt.Choice("builtin", 4) {
+	case 0:
+		p = mk(false, "KEEP")
+		err = cmdMatch(p)
+		for i, l := range lines {
+			if i%2 == 0 {
+				want += l + "\n"
+			}
+		}
+	case 1:
+		p = mk(true, "KEEP")
+		err = cmdMatch(p)
+		for i, l := range lines {
+			if i%2 != 0 {
+				want += l + "\n"
+			}
+		}
+	case 2:
+		p = mk(false, "5")
+		err = cmdLeft(p)
+		for _, l := range lines {
+			want += l[:5] + "\n"
+		}
+	default:
+		p = mk(false, "5")
+		err = cmdRight(p)
+		for _, l := range lines {
+			want += l[len(l)-5:] + "\n"
+		}
+	}
+	rt.Reach("long-returned")
+	rt.Assert(err == nil, "the list builtin failed on a list of long elements")
+	out, err := p.Stdout.ReadAll()
+	rt.Assert(err == nil, "cannot read the builtin's output")
+	rt.Assert(len(out) == len(want), "the list builtin output the wrong number of bytes for a list of long elements")
+	if len(out) == len(want) {
+		rt.Assert(string(out) == want, "the list builtin changed or mixed up elements of a list of long elements")
+	}
 }
